@@ -35,7 +35,8 @@ impl Format {
         if self.is_compressed() {
             ""
         } else {
-            &INDENT[..=len]
+            // Deeper indentation than the static string is capped.
+            &INDENT[..=len.min(INDENT.len() - 1)]
         }
     }
 }
